@@ -42,6 +42,59 @@ PASS = 5 % / 15 % / 15 %, CLEAR = 15 % / 35 % / 35 %, CONV = 6 %.  (The f'' stat
 Discrimination guard (non-triviality): the sign-flipped partner is off by ~2 for every pair; for the pairs whose
 tensor is not symmetric (Berry dipole, both gyrotropic tensors) the transposed partner must be off by > 0.3,
 otherwise the case cannot see an index swap and is counted trivial.
+
+Option hole_like (sub `pairs`): the Fermi-sea calculators have the documented option hole_like=True (only with tetra=True):
+the occupation f is replaced by f-1 (tetrahedron weights w -> 1-w, bands above the Fermi grid count fully, overall sign
+flipped), i.e. the sea integral is taken over the empty states.  int d_b X_n (f-1) = int d_b X_n f - int d_b X_n and the
+integral of a derivative of the periodic, non-degenerate band quantity X_n over the whole BZ vanishes for every band
+(all gaps are open by construction), so every identity above is unchanged; the surface forms have no such option.
+The case draws `hole` (first choice True, so that the minimal example with which every run starts exercises it, then 1 in 3)
+and hands hole_like=True to all five sea calculators (for GME_orb also to the nested Berry-dipole part).  Calibration on the
+unchanged tree, 12 models with hole_like=True (6 planar 2D, 6 3D): Ohmic/BerryDipole/GME pairs rel <= 1.2 %, NLDrude
+<= 7.3 %, f'' form <= 6.5 % -- inside the PASS thresholds above, which are unchanged.
+
+Sub `kp`: k.p models (wannierberri.system.SystemKP, vlib/kp28.py)
+    H(k) = s*[ (x.G.x/2) 1 + Delta sigma_z + sum_j c_j cos(q_j.k + phi_j) N_j ],   x_i = k.a_i/2pi (i < dim) reduced coordinates
+1 band (N_j = 1; kind `parabolic` has no trigonometric term at all) or 2 bands (N_j Pauli matrices, at least one term on
+sigma_x and on sigma_y, the sigma_z terms sum to <= Delta/2: gap >= Delta*s everywhere, Berry curvature present), G positive
+definite with eigenvalue ratios 1.15-2.5 and rotated by 0.2-2.9 rad against the reduced axes, so the Cartesian mass tensor
+M = s sum_ij G_ij a_i a_j^T/(2pi)^2 is anisotropic and aligned with nothing; 2-4 (1 band: 2-4) cosines with |p_j| ~ 0.5-1.4
+periods across the box and a total amplitude of 5-15 % of the face value (strongly non-parabolic).  dim=2 models depend on
+two reduced coordinates only and run on one k-plane (NK_3 = 1, periodic=(T,T,F) or the default), dim=3 on 24^3.
+Boxes: kmax (cubic), real_lattice or recip_lattice from 11 lattice families (hexagonal, monoclinic, triclinic, rotated ...:
+non-symmetric reciprocal-lattice matrices in ~60 % of the cases).  k_vector_cartesian True or False.  Each of derHam,
+der2Ham, der3Ham is either the analytic function or left to the finite-difference scheme of SystemKP (finite_diff_dk 1e-4 or
+1e-3; 1e-3 when three stencils are nested); nested stencils cost nb^depth calls per k-point (nb = 6-12), so when a run would
+need more than 1.1e6 calls the highest-order numerical derivative is supplied analytically instead (label der=...).
+Closed pocket (precondition, asserted): the lowest band obeys E_0(k) >= s*(x.G.x/2 - beta) (Weyl), hence on the whole boundary
+of the box E_0 >= E_face = s*(min_i 1/(8 (G^-1)_ii) - beta); the harness also evaluates the bands on a mesh of the boundary
+(4 x 241 points / 6 x 49^2) and on an interior mesh (121^2 / 33^3, band bottom).  s is chosen such that E_face - bottom =
+ratio*kT, ratio in [40,70], T in [300,2000] K.  Judged Fermi levels: bottom + 8 kT <= E_F <= E_face - 15.5 kT (f <= 2e-7 and
+f' <= 7.5e-7 of its pocket value 1/4kT on the boundary); Fermi grid: step 0.25 kT, 8.2 kT beyond the judged levels on both
+sides (the smoother is cut at 8 kT), so every zero-temperature curve entering a judged value belongs to a level >= 7.3 kT below
+E_face: the pocket is closed at every level and integration by parts has no boundary term although H is not periodic.
+(hole_like is not drawn here: a filled band of a non-periodic k.p box does contribute a boundary term.)
+Judged pairs: Ohmic (all models), nonlinear Drude sea/surface (not for `parabolic`: both vanish identically), Berry dipole
+and orbital gyrotropic tensor (2 bands; all four calculators work for SystemKP with internal terms; the spin tensor needs SS
+matrices that a k.p system does not have; the f'' form is not run).  Same measure and verdict logic as above.
+Independent oracle for `parabolic`: both Ohmic forms must equal  factor * M_ab * n(T)/V_cell, n(T) = area/volume fraction of
+the ellipse/ellipsoid x.G.x/2 <= E/s folded with -f' by the harness (factor = e^3 tau/(hbar^2 Ang), tau = 1 fs, or 1 with
+use_factor=False); PASS 2 %, CLEAR 6 %, violation only if that calculator changed by <= 3 % between the grids.
+Calibration on the unchanged tree (final generator; 2D: > 40 distinct models on 60^2-64^2, 3D: 17 models on 24^3; conv = sum of
+the relative changes of both calculators between the coarse and the judged grid):
+    2D  Ohmic rel <= 0.14 % (conv <= 0.4 %), exact value <= 0.05 % (conv <= 0.2 %), Berry dipole <= 0.43 % (conv <= 1.4 %),
+        GME orbital <= 0.5 % (one model 1.4 %; conv <= 3.8 %), NLDrude <= 3.6 % (one model 8.4 %: the surface form is noisy
+        where the second band starts to fill; 25 % on 48^2, which is why 48^2 is not used; conv <= 7.4 %)
+    3D  Ohmic <= 0.9 % (conv <= 2.3 %), exact value <= 0.81 % (conv <= 1.3 %), Berry dipole <= 2.6 % (conv <= 7.8 %),
+        GME orbital <= 3.2 % (one model 10.7 %; conv <= 12.2 %), NLDrude <= 7.2 % (conv <= 23 %: on 24^3 a disagreement of this
+        pair is mostly reported as "not converged")
+    (PASS, CLEAR, CONV): 2D Ohmic 2/8/4 %, Berry dipole and GME orbital 5/15/6 %, NLDrude 15/35/10 %;  3D Ohmic 5/15/6 %, Berry
+    dipole, GME orbital, NLDrude 15/35/12 %.  With a tetrahedron error ~ h^2 the error left on the judged grid is ~0.8 x conv,
+    i.e. at most a third of CLEAR when a violation is declared.  Transposed partner of Berry dipole / GME orbital: 0.88-1.7.
+Side observation (not judged): on highly symmetric models whose corner energies coincide exactly with Fermi levels (e.g. G = 1
+on a hexagonal box with a commensurate Fermi grid) the tetrahedron weights of the surface forms (der >= 1) return values
+~1e6 too large at single levels (several degenerate corners are split by 1e-12 in weights_tetra); the generator therefore
+keeps G anisotropic and rotated, and such a spike would end as "not converged", never as a violation.
 """
 import os
 
@@ -53,13 +106,19 @@ from vlib.util import fl, scratch_dir, maxabs
 from vlib import wbsys
 
 PROPERTY_ID = "C28"
-RULE = ("random symmetry-free 2-band (2D: 2-3 band) tight-binding models (first + second shell, arbitrary centres, 11 lattice "
-        "families, every direct gap >= 0.6 eV by construction) x {3D 24^3, planar 2D 72^2} x spin matrix {random "
-        "Hermitian SS(R), set_spin_pairs} x T in [1000,2000] K x use_factor, one run() with the documented "
-        "sea/surface pairs (Ohmic, Berry dipole, GME spin, GME orbital, nonlinear Drude; in 2D also the f'' form), "
-        "tetra=True + Fermi-Dirac smoother on a dense Fermi grid; non-trivial = every sea/surface pair agreed within "
-        "PASS and, for the non-symmetric tensors, the transposed partner is off by > 0.3 (a sign flip is always off "
-        "by ~2); distinct = distinct generated case")
+RULE = ("sub pairs: random symmetry-free 2-band (2D: 2-3 band) tight-binding models (first + second shell, arbitrary centres, "
+        "11 lattice families, every direct gap >= 0.6 eV by construction) x {3D 24^3, planar 2D 72^2} x spin matrix {random "
+        "Hermitian SS(R), set_spin_pairs} x T in [1000,2000] K x use_factor x hole_like of the sea forms (minimal example + 1 "
+        "in 3), one run() with the documented sea/surface pairs (Ohmic, Berry dipole, GME spin, GME orbital, nonlinear "
+        "Drude; in 2D also the f'' form), tetra=True + Fermi-Dirac smoother on a dense Fermi grid; "
+        "sub kp: SystemKP models H = s[(x.G.x/2) + Delta sigma_z + sum c_j cos(q_j.k+phi_j) N_j] with 1 band (parabolic or "
+        "with cosines) or 2 bands (Pauli mixing, gapped), G anisotropic and rotated, closed pocket (lowest band on the box "
+        "boundary >= 15.5 kT above every judged level, asserted) x box {kmax, real_lattice, recip_lattice; 11 lattice "
+        "families} x {2D one k-plane 60^2-64^2, 3D 24^3} x k_vector_cartesian x each of derHam/der2Ham/der3Ham analytic or "
+        "finite-difference x finite_diff_dk x use_factor x T in [300,2000] K; pairs Ohmic, nonlinear Drude, Berry dipole, GME "
+        "orbital, and both Ohmic forms against the exact value factor*M_ab*n(T) for the parabolic models; "
+        "non-trivial = every judged pair (and the exact value) agreed within PASS and, for the non-symmetric tensors, the "
+        "transposed partner is off by > 0.3 (a sign flip is always off by ~2); distinct = distinct generated case")
 ASSUMPTIONS = ["internal terms only (kwargs_formula external_terms=False); models have no AA/BB/CC matrices",
                "every direct gap >= case['gap'] >= 0.6 eV at every k (Weyl's inequality on the rescaled model)",
                "2D models are planar (all centres share the out-of-plane coordinate): the identities need a k-integral "
@@ -69,8 +128,17 @@ ASSUMPTIONS = ["internal terms only (kwargs_formula external_terms=False); model
                "(2D, plain sum, 144^2) <= 6.4 %; PASS 5/15/15 %, violation only above 15/35/35 % and only if both "
                "calculators changed by <= 6 % between the coarse and the judged grid (DESIGN 6)",
                "the f'' form is not judged in 3D (not resolvable at affordable grids); with use_factor=False its dropped "
-               "factor 1/2 is applied here"]
-MIN_NONTRIVIAL = {"quick": 2, "thorough": 10}
+               "factor 1/2 is applied here",
+               "hole_like=True (sea forms only, tetra=True): identities unchanged because the BZ integral of a derivative of "
+               "a periodic non-degenerate band quantity vanishes; calibrated on 12 models, same thresholds",
+               "kp: the k.p Hamiltonian is not periodic; the identities hold because the pocket is closed: lowest band on the "
+               "whole box boundary >= E_face (Weyl bound, cross-checked on a boundary mesh), judged levels <= E_face - 15.5 kT, "
+               "whole Fermi grid <= E_face - 7.3 kT; hole_like is therefore not used for k.p models",
+               "kp: nested finite-difference derivatives are replaced by analytic ones (highest order first) when a run "
+               "would need more than 1.1e6 model-function calls; finite_diff_dk = 1e-3 when three stencils are nested",
+               "kp thresholds (PASS/CLEAR/CONV, calibration in the module docstring): 2D Ohmic 2/8/4 %, Berry dipole and GME "
+               "orbital 5/15/6 %, NLDrude 15/35/10 %; 3D Ohmic 5/15/6 %, the others 15/35/12 %; exact value 2/6/3 %"]
+MIN_NONTRIVIAL = {"quick": 6, "thorough": 40}
 
 # (PASS, CLEAR, CONV) per pair and dimension, see module docstring
 THRESH = {"default": (0.05, 0.15, 0.06), ("nldrude", 2): (0.15, 0.35, 0.06), ("nldrude", 3): (0.15, 0.35, 0.06),
@@ -319,11 +387,15 @@ def check(case):
 
 KP_LATTICES = ["hexagonal", "monoclinic", "triclinic", "generic", "hexagonal60", "rhombohedral", "sc", "orthorhombic",
                "tetragonal", "fcc", "bcc"]
-# (NKdiv, NKFFT) judged / coarse; 3D as for the tight-binding sub (24^3 / 16^3), 2D 60^2..64^2 / 36^2..40^2
+# (NKdiv, NKFFT) judged / coarse; 3D as for the tight-binding sub (24^3 / 16^3), 2D 60^2 / 40^2 or 64^2 / 40^2
 KP_GRIDS = {3: GRIDS[3],
             2: [([6, 6, 1], [10, 10, 1], [4, 4, 1], [10, 10, 1]), ([8, 8, 1], [8, 8, 1], [5, 5, 1], [8, 8, 1]),
-                ([5, 5, 1], [12, 12, 1], [3, 3, 1], [12, 12, 1])]}
-KP_THRESH = {"default": (0.05, 0.15, 0.06), "nldrude": (0.15, 0.35, 0.06), ("gme_orb", 3): (0.15, 0.35, 0.06)}
+                ([5, 5, 1], [12, 12, 1], [5, 5, 1], [8, 8, 1])]}
+# (PASS, CLEAR, CONV) per pair and dimension, calibration in the module docstring
+KP_THRESH = {("ohmic", 2): (0.02, 0.08, 0.04), ("berrydipole", 2): (0.05, 0.15, 0.06), ("gme_orb", 2): (0.05, 0.15, 0.06),
+             ("nldrude", 2): (0.15, 0.35, 0.10),
+             ("ohmic", 3): (0.05, 0.15, 0.06), ("berrydipole", 3): (0.15, 0.35, 0.12), ("gme_orb", 3): (0.15, 0.35, 0.12),
+             ("nldrude", 3): (0.15, 0.35, 0.12)}
 KP_EXACT = (0.02, 0.06, 0.03)        # (PASS, CLEAR, CONV) of one Ohmic form against the exact value of the parabolic pocket
 KP_PAIRS = [("ohmic", "ohmic_sea", "ohmic_surf", None),
             ("nldrude", "nldrude_sea", "nldrude_surf", None),
@@ -337,13 +409,13 @@ KP_STEP = 0.25       # Fermi grid step / kT
 
 @st.composite
 def kp_case_st(draw):
-    dim = draw(st.sampled_from([2, 2, 3]))
+    dim = draw(st.sampled_from([2, 2, 2, 3]))
     box = draw(st.sampled_from(["real", "real", "recip", "kmax"]))
     nb = draw(st.sampled_from([2, 1]))
     kind = "trig" if nb == 2 else draw(st.sampled_from(["parabolic", "trig"]))
     return dict(dim=dim, box=box, lat=(draw(wbsys.lattice_st(kinds=KP_LATTICES)) if box != "kmax" else None),
                 kmax=(draw(fl(0.3, 3.0, 3)) if box == "kmax" else None), nb=nb, kind=kind,
-                ratios=[draw(fl(1.0, 2.5, 3)), draw(fl(1.0, 2.5, 3))], angles=[draw(fl(0.0, 3.14, 3)) for _ in range(3)],
+                ratios=[draw(fl(1.15, 2.5, 3)), draw(fl(1.3, 2.5, 3))], angles=[draw(fl(0.2, 2.9, 3)) for _ in range(3)],
                 amp=draw(fl(0.05, 0.15, 3)), delta=draw(fl(0.12, 0.3, 3)), nterms=draw(st.integers(2, 4)),
                 rs=draw(st.integers(0, 2 ** 32)), T=draw(fl(300.0, 2000.0, 1)), ratio=draw(fl(40.0, 70.0, 1)),
                 grid=draw(st.integers(0, 2)), use_factor=draw(st.booleans()), cartesian=draw(st.sampled_from([True, False])),
@@ -526,7 +598,7 @@ def check_kp(case):
                 f"(a analytic, n numerical) cartesian={case['cartesian']} T={case['T']} use_factor={case['use_factor']} "
                 f"|B-B^T|/|B|={asym:.2f} judged levels={info['njudged']}")
     status, margin, unconverged, blind = judge_pairs(
-        ev, KP_PAIRS, dim, lambda name: KP_THRESH.get((name, dim), KP_THRESH.get(name, KP_THRESH["default"])),
+        ev, KP_PAIRS, dim, lambda name: KP_THRESH[(name, dim)],
         lambda name: False, describe)
     exact = "no-exact-value"
     if ev.exact is not None:
@@ -569,4 +641,4 @@ def check_kp(case):
 
 
 SUBS = [Sub("pairs", case_st(), check, quick=4, thorough=32, budget_quick=600, budget_thorough=1800, per_shard_min=1),
-        Sub("kp", kp_case_st(), check_kp, quick=8, thorough=48, budget_quick=600, budget_thorough=1800, per_shard_min=1)]
+        Sub("kp", kp_case_st(), check_kp, quick=8, thorough=32, budget_quick=600, budget_thorough=1800, per_shard_min=1)]
